@@ -48,6 +48,10 @@ type ctx struct {
 	hashDiff   int64
 	mutDecoded int64
 
+	boundary           int64 // boundary-length cases that round-tripped
+	boundaryRefused    int64 // refused by a declared limit (control length refused as well)
+	boundaryNotCarried int64 // field not carried by the variant
+
 	mu       sync.Mutex
 	distinct map[string]bool
 	// payload field survival over all variants: "Type.Field" → survived somewhere / seen populated
@@ -751,6 +755,13 @@ func main() {
 	sers := genSerCases()
 	par.Go(len(sers), func(i int) { c.guard("ser", sers[i].name, func() { c.checkSer(sers[i]) }) })
 	amb := c.checkAmbiguity()
+	c.guard("primitive", "primitives", c.checkPrimitives)
+	bpar, bseq := c.boundaryCases()
+	par.Go(len(bpar), func(i int) { c.guard("boundary", bpar[i].name, func() { c.runBoundary(bpar[i]) }) })
+	for _, bc := range bseq {
+		bc := bc
+		c.guard("boundary", bc.name, func() { c.runBoundary(bc) })
+	}
 
 	// field survival: every exported payload field that was populated must come back in at
 	// least one variant of its payload type
@@ -818,6 +829,9 @@ func main() {
 		"mutations_decoded_canonically":       c.mutDecoded,
 		"mutations_hash_changed":              c.hashDiff,
 		"mutations_value_and_hash_unchanged":  c.hashSame,
+		"boundary_length_roundtrips":          c.boundary,
+		"boundary_length_refused_by_limit":    c.boundaryRefused,
+		"boundary_length_field_not_carried":   c.boundaryNotCarried,
 		"payload_fields_seen":                 len(c.seen),
 		"payload_fields_variant_dependent":    droppedSome,
 		"payload_versions_not_implemented":    unsup,
